@@ -317,7 +317,10 @@ func (c *Config) validate() error {
 	// default MaxCommittedSizePerReady to MaxSizePerMsg because they were
 	// previously the same parameter.
 	if c.MaxCommittedSizePerReady == 0 {
-		c.MaxCommittedSizePerReady = c.MaxSizePerMsg
+		// MaxSizePerMsg may legitimately be 0 ("at most one entry per message");
+		// the apply quota must stay positive, and a quota of 1 byte likewise
+		// yields one entry per batch.
+		c.MaxCommittedSizePerReady = max(c.MaxSizePerMsg, 1)
 	}
 
 	if c.MaxInflightMsgs <= 0 {
